@@ -36,6 +36,7 @@ type scenario struct {
 	Discards []int // per data message: -1 read fully, otherwise bytes to read before Discard()
 	Want     ws.OpCode
 	Reuse    bool
+	Ctor     int // 0 struct literal, 1 NewReader, 2 NewClientSideReader/NewServerSideReader
 	// ContRead: the OnContinuation callback reads this many bytes (at most) of every
 	// continuation body; they are consumed by the callback, the rest is delivered by Read.
 	ContRead int
@@ -44,7 +45,7 @@ type scenario struct {
 func (s scenario) describe() interface{} {
 	return map[string]interface{}{
 		"entry": s.Entry, "state": int(s.State), "chunks": s.Chunks, "eof_with_data": s.EOFData,
-		"bufsize": s.BufSize, "frames": ref.Describe(s.Frames), "discards": s.Discards, "want": int(s.Want), "oncontinuation_reads": s.ContRead,
+		"bufsize": s.BufSize, "frames": ref.Describe(s.Frames), "discards": s.Discards, "want": int(s.Want), "oncontinuation_reads": s.ContRead, "ctor": s.Ctor,
 	}
 }
 
@@ -127,13 +128,32 @@ func (s seen) String() string {
 	return ref.Event{Kind: s.kind, Op: s.op, Payload: s.payload}.String()
 }
 
+// newReader builds the Reader through one of the documented ways: the struct
+// literal, NewReader, or the side-specific constructor when the state is
+// exactly that side. They must be interchangeable.
+func newReader(src io.Reader, s scenario) *wsutil.Reader {
+	var rd *wsutil.Reader
+	switch {
+	case s.Ctor == 1:
+		rd = wsutil.NewReader(src, s.State)
+	case s.Ctor == 2 && s.State == ws.StateClientSide:
+		rd = wsutil.NewClientSideReader(src)
+	case s.Ctor == 2 && s.State == ws.StateServerSide:
+		rd = wsutil.NewServerSideReader(src)
+	default:
+		return &wsutil.Reader{Source: src, State: s.State, CheckUTF8: s.UTF8}
+	}
+	rd.CheckUTF8 = s.UTF8
+	return rd
+}
+
 func runReader(s scenario) error {
 	src := s.src()
 	evs := ref.Events(s.Frames)
 	idle := 2*len(s.Frames) + 4
 	var got []seen
 	var cbErr error
-	rd := &wsutil.Reader{Source: src, State: s.State, CheckUTF8: s.UTF8}
+	rd := newReader(src, s)
 	rd.OnIntermediate = func(h ws.Header, r io.Reader) error {
 		var p []byte
 		var err error
@@ -521,6 +541,7 @@ func TestReader(t *testing.T) {
 		s.Frames = gen.Conversation(t, "conv", gen.ConvOpts{Masked: masked, Big: true, MaxMsgs: 5})
 		drawTransport(t, &s)
 		s.UTF8 = rapid.Bool().Draw(t, "utf8")
+		s.Ctor = rapid.IntRange(0, 2).Draw(t, "ctor")
 		s.Partial = rapid.IntRange(0, 3).Draw(t, "partial") == 0
 		if rapid.IntRange(0, 3).Draw(t, "contread?") == 0 {
 			s.ContRead = rapid.SampledFrom([]int{1, 2, 3, 1000}).Draw(t, "contread")
